@@ -21,7 +21,47 @@ def seeds():
         verdict = (c.get("verdict", "?") + " — " + c.get("detail", c.get("caught_by", "")) + ((" → " + c["strengthening"]) if c.get("strengthening") else ""))[:420].replace("|", "/")
         rows.append("| seeded/%s | %s | %s | %s |" % (os.path.basename(d), m.get("breaks", "?"), need, verdict))
     return "\n".join(rows)
+import sys
+sys.path.insert(0, os.path.join(V, "lib"))
+import vlib
+def asbuilt(pid):
+    try:
+        P = vlib.load_prop(pid).PROP
+    except Exception:
+        return "*As built:* no check."
+    m = P.get("manifest", {})
+    th = [t.split(".")[-1] for t in P.get("theorems", [])]
+    lines = ["*As built (generated from props/%s.py, known/%s.json, seeded/):*" % (pid, pid), ""]
+    lines.append("* claim: %s" % re.sub(r"\s+", " ", m.get("text", ""))[:900])
+    lines.append("* technique: %s; engines: %s" % (m.get("technique", ""), ", ".join(P.get("engines", [])) or "-"))
+    lines.append("* theorems audited (%d): %s" % (len(th), ", ".join("`%s`" % t for t in th[:40]) + (" …" if len(th) > 40 else "")))
+    tb = P.get("trusted_base", []) + P.get("assumptions", [])
+    if tb:
+        lines.append("* modelled / assumed rather than verified: " + "; ".join(re.sub(r"\s+", " ", x)[:260] for x in tb[:8]) + (" …" if len(tb) > 8 else ""))
+    kp = os.path.join(V, "known", pid + ".json")
+    if os.path.exists(kp):
+        fs = json.load(open(kp)).get("findings", [])
+        op = [f["id"] for f in fs if f.get("status") == "open"]; fx = ["%s (%s)" % (f["id"], f.get("commit", "?")) for f in fs if f.get("status") == "fixed"]
+        lines.append("* findings: fixed %s; open %s" % (", ".join(fx) or "none", ", ".join(op) or "none"))
+    sd = []
+    for d in sorted(glob.glob(os.path.join(V, "seeded", pid + "-*"))):
+        try:
+            c = json.load(open(os.path.join(d, "meta.json"))).get("confirmed_by_lead", {})
+        except Exception:
+            continue
+        sd.append("%s: %s" % (os.path.basename(d), (c.get("now") or c.get("verdict", "?"))[:70]))
+    if sd:
+        lines.append("* seeded changes: " + "; ".join(sd))
+    return "\n".join(lines)
 p = os.path.join(V, "DESIGN.md"); s = open(p).read()
+for l in open(os.path.join(V, "properties.jsonl")):
+    if not l.strip(): continue
+    pid = json.loads(l)["id"]
+    tag = "ASBUILT-" + pid
+    if "<!-- BEGIN:%s -->" % tag not in s:
+        s = re.sub(r"(### %s — [^\n]*\n)" % pid, lambda m: m.group(1) + "\n<!-- BEGIN:%s -->\n<!-- END:%s -->\n" % (tag, tag), s, count=1)
+    s = re.sub(r"(<!-- BEGIN:%s -->).*?(<!-- END:%s -->)" % (tag, tag), lambda m: m.group(1) + "\n" + asbuilt(pid) + "\n\n*Plan written before the build (kept for reference):*\n" + m.group(2), s, flags=re.S)
+
 for name, fn in (("FINDINGS", findings), ("SEEDS", seeds)):
     s = re.sub(r"(<!-- BEGIN:%s -->).*?(<!-- END:%s -->)" % (name, name), lambda m: m.group(1) + "\n" + fn() + "\n" + m.group(2), s, flags=re.S)
 open(p, "w").write(s)
